@@ -184,8 +184,10 @@ def main(argv=None):
         tasks = [t for t in tasks if re.search(a.only, t)]
     findings = open_findings(prop)
     baseline = load_baseline(prop)
-    os.makedirs(os.path.join(ROOT, 'evidence'), exist_ok=True)
-    rdir = os.path.join(ROOT, 'replays', prop)
+    # a run against a scratch tree (HV_REPO set: seeds, mutation scripts) must not replace the record of the real tree
+    evdir = os.path.join(ROOT, 'evidence') if os.path.realpath(REPO) == '/repo' else os.path.join(ROOT, 'replays', '_scratch_evidence')
+    os.makedirs(evdir, exist_ok=True)
+    rdir = os.path.join(ROOT, 'replays', prop) if os.path.realpath(REPO) == '/repo' else os.path.join(ROOT, 'replays', '_scratch', prop)
     os.makedirs(rdir, exist_ok=True)
     for fn in os.listdir(rdir):
         try:
@@ -347,7 +349,7 @@ def main(argv=None):
         'assumptions': getattr(mod, 'ASSUMPTIONS', []),
         'wall_s': round(wall, 2), 'violations': len(violations),
     }
-    with open(os.path.join(ROOT, 'evidence', '%s.json' % prop), 'w') as f:
+    with open(os.path.join(evdir, '%s.json' % prop), 'w') as f:
         json.dump(ev, f, indent=1)
 
     if a.update_baseline:
